@@ -245,6 +245,7 @@ def run(ctx):
     # the file handle is dropped: the completeness rules of C07 are premises here as well
     from . import c07
     c07.rule_complete_before_publish(ctx, facts, prefix="C08-R1/C07")
+    c07.rule_no_retry(ctx, facts, prefix="C08-R1/C07-R3")
     rule_reduce_fold(ctx, facts)
     rule_driver_reads_failure(ctx, facts)
     # R4: dispatcher (shared with C18-R4's dispatch part)
